@@ -132,17 +132,34 @@ def dotLink : Str := ['.', 'l', 'i', 'n', 'k']
 def fileShortId (stepName fileName : Str) : Str :=
   trimStartChar '.' (trimStartMatches stepName (trimEndMatches dotLink fileName))
 
-/-- does `glob("<dir>/<step>.????????.link")` yield this file name (glob-safe step name)? -/
+/-- does the step name hold pattern syntax of the glob crate? -/
+def hasMeta (name : Str) : Bool := name.any fun c => c == '*' || c == '?' || c == '[' || c == ']'
+
+/-- the file-name pattern of a step's evidence: `<step>.????????.link` -/
+def stepPattern (stepName : Str) : Str := stepName ++ ['.', '?', '?', '?', '?', '?', '?', '?', '?'] ++ dotLink
+
+/-- does `glob("<dir>/<step>.????????.link")` yield this file name?  For a name free of pattern
+    syntax: the step name, a dot, eight characters, `.link`.  Otherwise the step name is read as a
+    pattern too (`*`, `?`, `[..]` - the glob crate has no escape for them in a path): the file name is
+    matched against the whole pattern as `glob::Pattern::matches` does (`Model/Glob.lean`). -/
 def matchesStepFile (stepName fileName : Str) : Bool :=
-  fileName.length = stepName.length + 14
-    && isPrefixOf (stepName ++ ['.']) fileName
-    && (fileName.drop (stepName.length + 9)) = dotLink
+  if hasMeta stepName then Glob.globMatch (stepPattern stepName) fileName == some true
+  else
+    fileName.length = stepName.length + 14
+      && isPrefixOf (stepName ++ ['.']) fileName
+      && (fileName.drop (stepName.length + 9)) = dotLink
+
+/-- is the step's file-name pattern accepted by the glob crate (`a**b`, `x[` are not)? -/
+def stepPatternOk (stepName : Str) : Bool := !hasMeta stepName || (Glob.parse (stepPattern stepName)).isSome
 
 /-- `KeyId::prefix` (first eight characters) -/
 def prefix8 (kid : Str) : Str := kid.take 8
 
-def globSafe (name : Str) : Bool :=
-  name.all fun c => c != '*' && c != '?' && c != '[' && c != ']' && c != '/'
+/-- a `/` in a step name makes the pattern span directories: outside the model -/
+def globSafe (name : Str) : Bool := name.all fun c => c != '/'
+
+/-- the answer for a step name that cannot be looked up: 99 = outside the model, 3 = "Path glob error" -/
+def nameErr (name : Str) : Nat := if globSafe name then 3 else 99
 
 variable {K : Type}
 
@@ -173,7 +190,7 @@ def loadLinks (dir : Dir K) : List Step → List (Str × List (Str × Block K)) 
     Out (List (Str × List (Str × Block K)))
   | [], acc => .ok acc
   | st :: rest, acc =>
-    if !globSafe st.name then .err 99 else
+    if !(globSafe st.name && stepPatternOk st.name) then .err (nameErr st.name) else
     match loadStepFiles st.name dir.files [] with
     | .ok links =>
       if links.length < st.threshold then .err 3
